@@ -351,8 +351,17 @@ fn run_threads_guarded(case: &Case, out: &mut Out) {
       .map(|p| p.to_string_lossy().to_string());
     let _ = tx.send(Msg::Tid(task));
     let tx2 = tx.clone();
+    // field `locktrace`: record the lock-level trace of every event (hook H2) on this thread
+    if copy.has("locktrace") {
+      crate::locktrace::start();
+    }
     let r = std::panic::catch_unwind(std::panic::AssertUnwindSafe(|| {
       run_threads_case(&copy, &mut |k, body| {
+        let body = if crate::locktrace::is_on() {
+          format!("{} L={}", body, crate::locktrace::take())
+        } else {
+          body
+        };
         let _ = tx2.send(Msg::Line(k, body));
       })
     }));
